@@ -36,7 +36,10 @@ func Sign(ctx context.Context, r io.Reader, cert *certloader.Certificate, hashTy
 		return nil, nil, errors.New("unreasonably large TOC")
 	}
 	// parse TOC and remove old signatures, tracking how much heap space they occupied
-	doc, err := tocEtree(r, hdr.CompressedSize)
+	if hdr.CompressedSize < 0 || hdr.UncompressedSize < 0 {
+		return nil, nil, errors.New("unreasonably large TOC")
+	}
+	doc, err := tocEtree(r, hdr.CompressedSize, hdr.UncompressedSize)
 	if err != nil {
 		return nil, nil, err
 	}
@@ -73,8 +76,8 @@ func Sign(ctx context.Context, r io.Reader, cert *certloader.Certificate, hashTy
 	return p, tssig, nil
 }
 
-func tocEtree(r io.Reader, compressedSize int64) (*etree.Document, error) {
-	origBytes, err := decompress(io.LimitReader(r, compressedSize))
+func tocEtree(r io.Reader, compressedSize, uncompressedSize int64) (*etree.Document, error) {
+	origBytes, err := decompress(io.LimitReader(r, compressedSize), uncompressedSize)
 	if err != nil {
 		return nil, err
 	}
